@@ -21,7 +21,7 @@ SegSet(segs) == {{Pair(p) : p \in Range(s)} : s \in Range(segs)}
 AllP == UNION SegSet(Cfg.topo)
 \* the global view of a record, in the shape Tree expects
 G(r) == [pst |-> r.pst, ppi |-> [n \in 1..NN |-> Pair(r.ppi[n])], gm |-> [n \in 1..NN |-> <<r.gm[n][1], r.gm[n][2], r.gm[n][3], r.gm[n][4], r.gm[n][5], r.gm[n][6]>>],
-         steps |-> r.steps, so |-> r.so, q |-> r.q, segs |-> SegSet(r.segs), alive |-> Range(r.alive)]
+         steps |-> r.steps, so |-> r.so, q |-> r.q, p2 |-> Cfg.prio2, segs |-> SegSet(r.segs), alive |-> Range(r.alive)]
 
 VARIABLES l, prev
 tvars == <<l, prev>>
